@@ -269,7 +269,7 @@ Definition print_at (cf : cfg) (w : node -> M value) (mu : N) (arg : node) (dirs
   match v with
   | VUndef => fail e_undefined
   | _ =>
-      ds <-- print_dirs cf w dirs ;;;
+      ds <-- print_dirs cf w dirs v ;;;
       s <-- lift (value_string v) ;;;
       ws <-- lift (print_writes mu ds s) ;;;
       _ <-- write_all ws ;;; ret VUndef
@@ -282,6 +282,9 @@ Proof.
   destruct r; try reflexivity. apply Hf. rewrite (Hk _ _ _ Hm). exact Hmu.
 Qed.
 
+Lemma keeps_mode_sites : pure_sites (fun _ _ => True).
+Proof. constructor; intros; exact Logic.I. Qed.
+
 Theorem print_at_mode cf (w : node -> M value) p arg dirs st :
   (forall c, no_template_inside c = true -> keeps_mode (w c)) ->
   no_template_inside (NPrint p arg dirs) = true ->
@@ -292,7 +295,7 @@ Proof.
   apply (mbind_same_at (mode st)); [apply Hw; assumption | reflexivity|].
   intros v s1 Hs1. destruct v; try reflexivity;
     (apply (mbind_same_at (mode st));
-     [ exact (gphi_print_dirs cf not_template (@keeps_mode) (fun _ => True) (fun _ _ => True) keeps_mode_logic w Hw dirs Hn)
+     [ exact (gphi_print_dirs cf not_template (@keeps_mode) (fun _ => True) (fun _ _ => True) keeps_mode_logic keeps_mode_sites w Hw dirs Hn _)
      | exact Hs1 |];
      intros ds s2 Hs2;
      apply (mbind_same_at (mode st)); [intros ? ? ? H; inversion H; reflexivity | exact Hs2 |];
